@@ -627,7 +627,12 @@ def permute_occupations_and_correlations(results: Results, perm: torch.Tensor) -
         results._results[uuid_corr] = (
             [  # vector quantities become lists after results are serialized (e.g. for checkpoints)
                 optimat.permute_tensor(
-                    corr if isinstance(corr, torch.Tensor) else torch.tensor(corr), perm
+                    (
+                        corr
+                        if isinstance(corr, torch.Tensor)
+                        else torch.tensor(corr, dtype=torch.float64)
+                    ),
+                    perm,
                 )
                 for corr in corrs
             ]
